@@ -2,6 +2,7 @@
 PROPS = {
     "C01": {
         "vx": ["simplify_rules", "context", "driver"],
+        "py": ["builder_forward"],
         "ax": True,
         "level": "proof",
     },
@@ -29,6 +30,7 @@ PROPS = {
     },
     "C12": {
         "vx": ["context"],
+        "py": ["builder_forward"],
         # canonical / stable is carried by add_expr, the literal interning path, the cached constants and the growth lemmas;
         # WHAT each operator builder denotes belongs to the chain of C01 (which runs the whole unit)
         "only": {"context": r"^(add_expr|Context::index|Context::default|get_true|get_false|bv_lit|bit_vec_val|zero|one|ones|BVLitValue::|lemma_|theorem_)"},
